@@ -51,6 +51,14 @@ pub fn build_pretty_string_item(
     let color_start = start;
     // If the end position is a line break (= line_end < end), it is not included.
     let color_end = end.min(line_end);
+    // Neither is the carriage return of a CRLF line ending: inside the colored span it would
+    // survive `lines()` below, and the colored and plain forms would show different text.
+    let color_end =
+        if color_end == line_end && color_end > color_start && bytes[color_end - 1] == b'\r' {
+            color_end - 1
+        } else {
+            color_end
+        };
 
     let (marker_start_color, marker_end_color, start_color, reset_color) = if coloring {
         (
